@@ -234,11 +234,25 @@ func (s *JavaIdentifierListener) EnterExpression(ctx *parser.ExpressionContext) 
 		statementCtx := ctx.GetParent().(*parser.StatementContext)
 		firstChild := statementCtx.GetChild(0).(antlr.ParseTree).GetText()
 		if strings.ToLower(firstChild) == "return" {
-			if hasNullLiteral(ctx) {
+			if !isInLambdaBody(statementCtx) && hasNullLiteral(ctx) {
 				currentMethod.IsReturnNull = true
 			}
 		}
 	}
+}
+
+// isInLambdaBody reports whether the statement stands in the body of a lambda expression of the
+// method (or field initialiser) it is written in: its return leaves the lambda, not the method.
+func isInLambdaBody(tree antlr.Tree) bool {
+	for node := tree.GetParent(); node != nil; node = node.GetParent() {
+		switch node.(type) {
+		case *parser.LambdaBodyContext:
+			return true
+		case *parser.MethodBodyContext, *parser.ClassBodyContext, *parser.InterfaceBodyContext:
+			return false
+		}
+	}
+	return false
 }
 
 // hasNullLiteral reports whether a null literal occurs in the returned expression, other than
